@@ -13,9 +13,10 @@ Scratch worktrees live under $TMPDIR and are removed.  Usage: python3 sim/selfte
 import os, subprocess, sys, tempfile, json, re
 VERIF = os.path.dirname(os.path.dirname(os.path.dirname(os.path.abspath(__file__))))
 CASES = [(n, "patch", 0) for n in ("C01", "C07", "C08", "C13", "C16", "C17", "C19")] + \
-        [(n, "patch", 1) for n in ("C13h", "C19h", "C09h", "C19t", "C11t", "C14t", "D1", "D3")] + [("D2", "patch", None), ("E1", "patch", 1), ("E3", "patch", None), ("E2", "patch", 0), ("F1", "patch", 1), ("F2", "patch", 1), ("F3", "patch", None)] + \
+        [(n, "patch", 1) for n in ("C13h", "C19h", "C09h", "C19t", "C11t", "C14t", "D1", "D3")] + [("D2", "patch", None), ("E1", "patch", 1), ("E3", "patch", None), ("E2", "patch", 0), ("F1", "patch", 1), ("F2", "patch", 1), ("F3", "patch", None), ("G1", "patch", 1), ("G2", "patch", 1), ("G3", "patch", 1)] + \
         [("C13h_fulltag", "fulltag", 0), ("lazy_bad", "mk", 1), ("mutex_ok", "mk", 0), ("mutex_bad", "mk", 1),
-         ("guard_ok", "mk", 0), ("once_ok", "mk", 0), ("alloc_bad", "mk", 1), ("alloc_ok", "mk", 0), ("seqlock_ok", "mk", 0), ("seqlock_bad", "mk", 1), ("clock_bad", "mk", 1), ("clock_ok", "mk", 0)]
+         ("guard_ok", "mk", 0), ("once_ok", "mk", 0), ("alloc_bad", "mk", 1), ("alloc_ok", "mk", 0), ("seqlock_ok", "mk", 0), ("seqlock_bad", "mk", 1), ("clock_bad", "mk", 1), ("clock_ok", "mk", 0),
+         ("tls_reentrant_ok", "mk", 0), ("tls_reentrant_bad", "mk", 1)]
 
 def sh(cmd, **kw):
     return subprocess.run(cmd, stdout=subprocess.PIPE, stderr=subprocess.STDOUT, text=True, **kw)
